@@ -99,9 +99,11 @@ class Injector:
     """
 
     def __init__(self, mode, at=None, files=None, sig=signal.SIGINT, on_kill=None,
-                 record_at=False, only_in=None, at2=None):
+                 record_at=False, only_in=None, at2=None, returns=False):
         self.mode = mode
         self.at = at
+        self.returns = returns  # function returns are injection points too (a signal that arrived during the C call of
+        #                         a function's last statement is handled inside that function, before it returns)
         self.at2 = at2      # abort mode: a second signal this many line events after the first
         self.fired2 = None
         self.files = tuple(files or (os.path.join(SRC_REAL, "conductor"),))
@@ -135,13 +137,17 @@ class Injector:
 
     def local_window_root(self, frame, event, arg):
         if event == "return":
+            if self.returns:
+                self.local(frame, event, arg)
             self._win -= 1
             return self.local_window_root
         self.local(frame, event, arg)
         return self.local_window_root
 
     def local(self, frame, event, arg):
-        if event != "line":
+        if event != "line" and not (self.returns and event == "return" and not frame.f_code.co_flags & 0x2A0
+                                    and (self.returns is True or frame.f_code.co_name in self.returns)):
+            # (0x2A0: generator / coroutine / async generator frames "return" at every yield)
             return self.local
         if self.only_in and self._win <= 0 and not self.pending:
             return self.local
